@@ -35,6 +35,9 @@ type concOp struct {
 	wacc  int
 	// S with acks: the peer delivers the ack this long after it received the message
 	ackDelay time.Duration
+	// S through a convenience helper of the client (SendPackedFromBytes, ...): what to call instead of Send(msg);
+	// msg/enc describe the message the helper is documented to build
+	call func(cl *client.Client) error
 }
 
 func (o concOp) model(cf ccfg) string {
@@ -206,7 +209,11 @@ func runConcMode(cf ccfg, prefix []concOp, progs [][]concOp, choices []int, time
 		var err error
 		switch o.kind {
 		case "S":
-			err = cl.Send(o.msg)
+			if o.call != nil {
+				err = o.call(cl)
+			} else {
+				err = cl.Send(o.msg)
+			}
 		case "W":
 			err = cl.SendRaw(o.raw)
 		case "C":
